@@ -358,11 +358,8 @@ fn batch(mode: &'static str, tier: &str) -> i32 {
         wall_s: wall,
         exhaustive: None,
     };
-    if mode == "c10" {
-        // C10's evidence file is assembled by bin/merge-evidence from this part and the baseline part
-        return simcore::finish_as(rep, agg, "C10.shuttle.part");
-    }
-    simcore::finish(rep, agg)
+    // the evidence file is assembled by bin/merge-evidence from this part and the other leg's part
+    simcore::finish_as(rep, agg, &format!("{property}.shuttle.part"))
 }
 
 fn fold(rec: &Value, agg: &mut Agg, first_use: &Mutex<std::collections::BTreeSet<u64>>, known: &KnownFindings, property: &str, stopfile: &std::path::Path) {
